@@ -1356,7 +1356,9 @@ class Context:
         This is used internally to invoke JSFunction objects from Python code.
         """
         vm = VM(memory_limit=self.memory_limit, time_limit=self.time_limit)
-        vm.globals.update(self._globals)
+        # Share the globals (not a copy): what the function writes is there
+        # whichever way it ends
+        vm.globals = self._globals
         if self._current_vm is not None:
             # Share the running evaluation's deadline and host-stack budget
             vm.start_time = self._current_vm.start_time
@@ -1364,9 +1366,7 @@ class Context:
             vm._poll_deadline()
         else:
             vm.start_time = time.monotonic()
-        result = vm._call_callback(func, args, UNDEFINED)
-        self._globals.update(vm.globals)
-        return result
+        return vm._call_callback(func, args, UNDEFINED)
 
     def get(self, name: str) -> Any:
         """Get a global variable.
